@@ -4,11 +4,20 @@
   Proved here: matchList_iff, matchNFA_iff, matchList_eq_matchNFA, MatchList_iff_delim,
   MatchList_iff_nodelim, MatchList_iff, MatchList_resolved, star_matches_all, pct_no_delim,
   literal_only.
-  Left out (not modelled, so not stated): delimiters whose UTF-8 encoding has more than one byte
-  (`delimStr.length > 1`, `delimByte = none`); the Spec's `resolveMatch` is only defined for a
-  single-byte or absent delimiter.
+  Delimiters whose UTF-8 encoding has more than one byte (a genuine defect, repaired by a "fix:"
+  commit: the loop compared `string(name[j])`, one BYTE converted to a rune, with the delimiter
+  string): legacy_multibyte_cross_counterexample / legacy_latin1_stop_counterexample show the shipped
+  matcher violating the semantics, multibyte_repaired that the repaired one does not;
+  matchListS_iff: the repaired matcher (`matchListS`, delimiter STRING of any length) accepts exactly
+  `MatchesS` — '%' stands for a sequence inside which no delimiter starts; pctS_not_infix: "%" alone
+  matches exactly the names of which the delimiter is not a contiguous part; matchesS_single /
+  MatchListS_single / MatchListS_nodelim: for a one-byte or absent delimiter the repaired matcher IS
+  the one all theorems above speak of, so they carry over to what the driver runs (`matchListTopS`).
+  Not proved: that the byte-level `MatchesS` equals the rune-level semantics for valid UTF-8 (UTF-8
+  is self-synchronising); the rune-level oracle `Spec.runeOracle` judges every case of every run.
 -/
 import GoImap.Lemmas.ListMatchTop
+import GoImap.Lemmas.ListMatchS
 namespace GoImap.C20
 open GoImap.ListMatch GoImap.ListMatchSpec GoImap.ListMatchLemmas
 
@@ -195,5 +204,119 @@ example : Matches (some 47) [97, 47, 98] [97, 47, 98] :=
   (literal_only _ _ _ (by decide)).mpr rfl
 example : ¬ Matches (some 47) [97, 47, 98] [97, 47, 99] := fun h =>
   absurd ((literal_only _ _ _ (by decide)).mp h) (by decide)
+
+/-! ### delimiters of any length: the repaired matcher -/
+
+/-- the repaired recursive matcher accepts exactly the names the byte-level wildcard semantics for a
+    delimiter string accepts: every pattern, every name, every delimiter string -/
+theorem matchListS_iff (delim : List B) (pat name : List B) :
+    matchListS delim pat name = true ↔ MatchesS delim pat name := by
+  induction pat generalizing name with
+  | nil =>
+    simp only [matchListS]
+    constructor
+    · intro h; have : name = [] := by simpa using h
+      subst this; exact .nil
+    · intro h; cases h; rfl
+  | cons c ps ih =>
+    simp only [matchListS]
+    by_cases hw : isWild c = true
+    · simp only [hw, if_true]
+      rw [expandS_iff]
+      have hc : c = 42 ∨ c = 37 := by simpa [isWild] using hw
+      constructor
+      · rintro ⟨pre, suf, rfl, hk, hp⟩
+        have hm := (ih suf).mp hk
+        rcases hc with rfl | rfl
+        · exact .star ps pre suf _ rfl hm
+        · exact .pct ps pre suf _ rfl (hp (by simp)) hm
+      · intro h
+        rcases hc with rfl | rfl
+        · cases h with
+          | lit _ _ _ hnw _ => simp [isWild] at hnw
+          | star _ pre ns _ he hm => exact ⟨pre, ns, he, (ih ns).mpr hm, by simp⟩
+        · cases h with
+          | lit _ _ _ hnw _ => simp [isWild] at hnw
+          | pct _ pre ns _ he hd hm => exact ⟨pre, ns, he, (ih ns).mpr hm, fun _ => hd⟩
+    · have hw' : isWild c = false := by simpa using hw
+      simp only [hw', Bool.false_eq_true, if_false]
+      cases name with
+      | nil =>
+        simp only
+        constructor
+        · intro h; cases h
+        · intro h; cases h <;> simp_all [isWild]
+      | cons n ns =>
+        simp only [Bool.and_eq_true, decide_eq_true_eq]
+        constructor
+        · rintro ⟨rfl, h⟩; exact .lit _ _ _ hw' ((ih ns).mp h)
+        · intro h
+          cases h with
+          | lit _ _ _ _ hm => exact ⟨rfl, (ih ns).mpr hm⟩
+          | star _ pre ns' _ _ _ => simp [isWild] at hw'
+          | pct _ pre ns' _ _ _ _ => simp [isWild] at hw'
+
+/-- for a one-byte delimiter the two semantics are the same relation -/
+theorem matchesS_single (d : B) (pat name : List B) :
+    MatchesS [d] pat name ↔ Matches (some d) pat name := by
+  rw [← matchListS_iff, ← matchList_iff, matchListS_single]
+
+/-- … and with no delimiter -/
+theorem matchesS_nil (pat name : List B) : MatchesS [] pat name ↔ Matches none pat name := by
+  rw [← matchListS_iff, ← matchList_iff, matchListS_nil]
+
+/-- what the driver runs (`matchListTopS`, the repaired `MatchList`) is, for a one-byte delimiter,
+    the function of `MatchList_iff_delim` / `MatchList_resolved` -/
+theorem MatchListS_single (name : List B) (d : B) (reference pattern : List B) :
+    matchListTopS name [d] reference pattern = resolveMatch name (some d) reference pattern := by
+  rw [matchListTopS_single, MatchList_iff_delim]
+
+theorem MatchListS_nodelim (name : List B) (reference pattern : List B) :
+    matchListTopS name [] reference pattern = resolveMatch name none reference pattern := by
+  rw [matchListTopS_nil, MatchList_iff_nodelim]
+
+/-- "%" alone matches exactly the names of which the delimiter string is not a contiguous part -/
+theorem pctS_not_infix (delim name : List B) (hd : delim ≠ []) :
+    MatchesS delim [37] name ↔ ¬ delim <:+: name := by
+  rw [← noStart_all_iff delim name hd]
+  constructor
+  · intro h
+    cases h with
+    | lit _ _ _ hnw _ => simp [isWild] at hnw
+    | pct _ pre ns _ he hns hm =>
+      cases hm
+      subst he
+      simpa using hns hd
+  · intro h
+    exact .pct [] name [] name (by simp) (fun _ => h) .nil
+
+/-- the shipped matcher with the delimiter U+2192 "→" (E2 86 92; no byte can equal it, so
+    `delimByte = none`): "%" matched "a→b", which contains the delimiter -/
+theorem legacy_multibyte_cross_counterexample :
+    matchListTop [97, 226, 134, 146, 98] [226, 134, 146] none [] [37] = true ∧
+    ¬ MatchesS [226, 134, 146] [37] [97, 226, 134, 146, 98] := by
+  refine ⟨by decide, fun h => ?_⟩
+  exact (pctS_not_infix _ _ (by decide)).mp h ⟨[97], [98], by decide⟩
+
+/-- the shipped matcher with the delimiter U+00B7 "·" (C2 B7; `string(byte 0xB7) == "·"`, so
+    `delimByte = some 183`): "%" refused "a÷b" (61 C3 B7 62), which does not contain the delimiter -/
+theorem legacy_latin1_stop_counterexample :
+    matchListTop [97, 195, 183, 98] [194, 183] (some 183) [] [37] = false ∧
+    MatchesS [194, 183] [37] [97, 195, 183, 98] := by
+  refine ⟨by decide, (pctS_not_infix _ _ (by decide)).mpr ?_⟩
+  rw [← noStart_all_iff _ _ (by decide)]
+  decide
+
+/-- the repaired matcher on the same two inputs -/
+theorem multibyte_repaired :
+    matchListTopS [97, 226, 134, 146, 98] [226, 134, 146] [] [37] = false ∧
+    matchListTopS [97, 195, 183, 98] [194, 183] [] [37] = true := by decide
+
+/-- non-vacuity: a multi-byte delimiter, '%' up to it, the delimiter, then '*' -/
+example : matchListS [226, 134, 146] [37, 226, 134, 146, 42] [97, 226, 134, 146, 98, 226, 134, 146, 99] = true := by decide
+example : MatchesS [226, 134, 146] [37, 226, 134, 146, 42] [97, 226, 134, 146, 98, 226, 134, 146, 99] :=
+  (matchListS_iff _ _ _).mp (by decide)
+example : ¬ MatchesS [226, 134, 146] [97, 37] [97, 226, 134, 146, 98] := fun h =>
+  absurd ((matchListS_iff _ _ _).mpr h) (by decide)
 
 end GoImap.C20
